@@ -81,6 +81,7 @@ class Engine:
         self.model = None
         self.fixed_cache = {}
         self.path_notes = []
+        self.watches = []          # per path: callables(model) -> dict of extra named values for counterexamples
         # memo of solver answers keyed by (decision-trace key, sequence number since last decision): the
         # harness is deterministic, so the k-th query after decision prefix T is the same query in every
         # re-execution (the term id is stored and compared as a guard).
@@ -187,6 +188,7 @@ class Engine:
             self.model = None
             self.fixed_cache = {}
             self.path_notes = []
+            self.watches = []
             try:
                 fn()
                 self.paths += 1
@@ -379,6 +381,11 @@ class Engine:
             for n in self.input_order:
                 v = model.eval(self.inputs[n], model_completion=True)
                 vals[n] = v.as_long()
+            for w in self.watches:
+                try:
+                    vals.update(w(model))
+                except Exception:
+                    pass
         if callable(info):
             info = info(model)
         self.candidates.append(Candidate(msg, vals, info))
@@ -405,6 +412,12 @@ def tobool(c):
         return z3.BoolVal(c)
     if isinstance(c, z3.BoolRef):
         return c
+    try:
+        import numpy as _np
+        if isinstance(c, _np.bool_):
+            return z3.BoolVal(bool(c))
+    except ImportError:
+        pass
     raise TypeError("tobool %r" % type(c))
 
 
@@ -498,6 +511,8 @@ def b_and(*cs):
 def b_or(*cs):
     acc = False
     for c in cs:
+        if not isinstance(c, (bool, SymBool)) and type(c).__name__ in ('bool', 'bool_'):
+            c = bool(c)
         if isinstance(c, bool):
             if c:
                 return True
@@ -581,6 +596,9 @@ class SymInt:
         self.t = t
         self.isfloat = isfloat
 
+    def _mk(self, t, isfloat=False):
+        return mk(t, isfloat)
+
     # -- arithmetic
     def _coerce(self, o):
         """-> (term, isfloat) or None (NotImplemented)."""
@@ -606,7 +624,7 @@ class SymInt:
         c = self._coerce(o)
         if c is None:
             return self._float_op('add', o)
-        return mk(self.t + c[0], self.isfloat or c[1])
+        return self._mk(self.t + c[0], self.isfloat or c[1])
 
     __radd__ = __add__
 
@@ -614,13 +632,13 @@ class SymInt:
         c = self._coerce(o)
         if c is None:
             return self._float_op('sub', o)
-        return mk(self.t - c[0], self.isfloat or c[1])
+        return self._mk(self.t - c[0], self.isfloat or c[1])
 
     def __rsub__(self, o):
         c = self._coerce(o)
         if c is None:
             return self._float_op('rsub', o)
-        return mk(c[0] - self.t, self.isfloat or c[1])
+        return self._mk(c[0] - self.t, self.isfloat or c[1])
 
     def __mul__(self, o):
         c = self._coerce(o)
@@ -632,10 +650,10 @@ class SymInt:
                     # exact only when the product is integral: prove divisibility under the path condition
                     prod = self.t * num
                     if ENG.check_silent((prod % den) == 0):
-                        return mk(prod / den, True)
+                        return self._mk(prod / den, True)
                     raise Unsupported("SymInt * %r not provably integral" % o)
             return NotImplemented
-        return mk(_mul_t(self.t, c[0]), self.isfloat or c[1])
+        return self._mk(_mul_t(self.t, c[0]), self.isfloat or c[1])
 
     __rmul__ = __mul__
 
@@ -643,48 +661,48 @@ class SymInt:
         c = self._coerce(o)
         if c is None:
             return self._float_op('floordiv', o)
-        return mk(_floordiv_t(self.t, c[0]), self.isfloat or c[1])
+        return self._mk(_floordiv_t(self.t, c[0]), self.isfloat or c[1])
 
     def __rfloordiv__(self, o):
         c = self._coerce(o)
         if c is None:
             return self._float_op('rfloordiv', o)
-        return mk(_floordiv_t(c[0], self.t), self.isfloat or c[1])
+        return self._mk(_floordiv_t(c[0], self.t), self.isfloat or c[1])
 
     def __mod__(self, o):
         c = self._coerce(o)
         if c is None:
             return self._float_op('mod', o)
-        return mk(_mod_t(self.t, c[0]), self.isfloat or c[1])
+        return self._mk(_mod_t(self.t, c[0]), self.isfloat or c[1])
 
     def __rmod__(self, o):
         c = self._coerce(o)
         if c is None:
             return self._float_op('rmod', o)
-        return mk(_mod_t(c[0], self.t), self.isfloat or c[1])
+        return self._mk(_mod_t(c[0], self.t), self.isfloat or c[1])
 
     def __truediv__(self, o):
         # exact only when divisible; otherwise not encoded
         c = self._coerce(o)
-        if c is not None and z3.is_int_value(c[0]) and c[0].as_long() != 0:
+        if c is not None and z3.is_int_value(c[0]) and c[0].as_long() != 0 and abs(c[0].as_long()) <= 65536:
             if ENG.check_silent((self.t % c[0]) == 0):
-                return mk(_floordiv_t(self.t, c[0]), True)
-        raise Unsupported("true division of a symbolic integer (%s / %r)" % (self, o))
+                return self._mk(_floordiv_t(self.t, c[0]), True)
+        return OpaqueNumber("true division of a symbolic integer (%s / %r)" % (self, o))
 
     def __rtruediv__(self, o):
-        raise Unsupported("true division by a symbolic integer")
+        return OpaqueNumber("true division by a symbolic integer")
 
     def _float_op(self, name, o):
         raise Unsupported("symbolic int %s non-integral/unknown operand %r" % (name, o))
 
     def __neg__(self):
-        return mk(-self.t, self.isfloat)
+        return self._mk(-self.t, self.isfloat)
 
     def __pos__(self):
         return self
 
     def __abs__(self):
-        return mk(z3.If(self.t >= 0, self.t, -self.t), self.isfloat)
+        return self._mk(z3.If(self.t >= 0, self.t, -self.t), self.isfloat)
 
     # -- comparisons (no fork until used as bool)
     def _cmp(self, o, op):
@@ -759,6 +777,32 @@ class SymInt:
     # numpy-ish helpers used by repo code on scalars
     def astype(self, _t):
         return self
+
+
+class OpaqueNumber:
+    """Result of an operation the engine does not model (non-integral real): may be formatted / printed, any use in
+    arithmetic, comparison or indexing makes the work item 'not encoded'."""
+    def __init__(self, why):
+        self.why = why
+
+    def __format__(self, spec):
+        return '<real>'
+
+    def __str__(self):
+        return '<real>'
+
+    __repr__ = __str__
+
+    def _no(self, *a, **k):
+        raise Unsupported(self.why)
+
+    __add__ = __radd__ = __sub__ = __rsub__ = __mul__ = __rmul__ = __truediv__ = __rtruediv__ = __floordiv__ = __rfloordiv__ = _no
+    __mod__ = __rmod__ = __lt__ = __le__ = __gt__ = __ge__ = __bool__ = __int__ = __float__ = __index__ = __neg__ = __abs__ = _no
+
+    def __eq__(self, o):
+        raise Unsupported(self.why)
+
+    __hash__ = None
 
 
 def _check_silent(self, cond):
